@@ -5,6 +5,7 @@ import TcVerif.Driver.JudgeRep
 import TcVerif.Driver.Store
 import TcVerif.Driver.TaskFam
 import TcVerif.Driver.JudgeTask
+import TcVerif.Driver.Seal
 
 open Tc.Driver
 
@@ -64,6 +65,45 @@ partial def loopJudgeTask (h : IO.FS.Stream) (out : IO.FS.Stream) (j : TJ) : IO 
   let (j', outs) := tjLine j (line.dropEndWhile (· == '\n')).toString
   for o in outs do out.putStrLn o
   loopJudgeTask h out j'
+
+partial def loopSeal (h : IO.FS.Stream) (out : IO.FS.Stream) (st : SealState) (echo : Bool) : IO Unit := do
+  let line ← h.getLine
+  if line.isEmpty then return ()
+  if line.startsWith "#" then
+    if echo then out.putStrLn line.trimAscii.toString
+    loopSeal h out st echo
+  else
+    if echo then out.putStrLn ("> " ++ (shorten line.trimAscii.toString))
+    let (st', outs) := sealLine st line
+    for o in outs do
+      out.putStrLn o
+    out.flush
+    loopSeal h out st' echo
+
+/-- family `seal`: predicates on the implementation's answers -/
+partial def loopJudgeSeal (h : IO.FS.Stream) (out : IO.FS.Stream) (hdr : String) (cmd : String) (fails : List String) : IO Unit := do
+  let line ← h.getLine
+  let flush : IO Unit := do
+    if !hdr.isEmpty then
+      match fails with
+      | [] => out.putStrLn s!"judge {hdr} :: ok"
+      | fs => for f in fs.eraseDups do out.putStrLn s!"judge {hdr} :: FAIL {f}"
+  if line.isEmpty then flush; return ()
+  let l := (line.dropEndWhile (· == '\n')).toString
+  if l.startsWith "# case" then
+    flush
+    loopJudgeSeal h out l "" []
+  else if l.startsWith "> " then loopJudgeSeal h out hdr ((l.drop 2).toString.splitOn " ").head! fails
+  else
+    let f :=
+      if cmd == "TAMPER" && l.startsWith "ok" then ["tamper accepted-non-genuine-envelope"]
+      else if cmd == "OPEN" && l == "err" then ["roundtrip genuine-envelope-rejected"]
+      else if cmd == "LAYOUT" && l != "layout first=1 len-ok=true" then [s!"layout {l}"]
+      else if cmd == "LEAKCHECK" && l != "leak none" then ["leak plaintext-in-sealed-bytes"]
+      else if cmd == "NONCECHECK" && l != "nonces distinct" then [s!"nonce {l}"]
+      else if l == "panic" then ["tamper panic"]
+      else []
+    loopJudgeSeal h out hdr cmd (fails ++ f)
 
 partial def loopStore (h : IO.FS.Stream) (out : IO.FS.Stream) (st : SState) : IO Unit := do
   let line ← h.getLine
@@ -130,6 +170,9 @@ def main (args : List String) : IO UInt32 := do
   | ["judge", "rep"] => loopJudgeRep stdin stdout {}; return 0
   | ["model", "store"] => loopStore stdin stdout {}; return 0
   | ["model", "task"] => loopTask stdin stdout {}; return 0
+  | ["model", "seal"] => loopSeal stdin stdout {} true; return 0
+  | ["sealgen"] => loopSeal stdin stdout {} false; return 0
+  | ["judge", "seal"] => loopJudgeSeal stdin stdout "" "" []; return 0
   | ["judge", "task"] => loopJudgeTask stdin stdout {}; return 0
   | ["judge", "store"] => loopJudgeStore stdin stdout "" #[] []; return 0
   | _ =>
